@@ -54,7 +54,9 @@ def run_family(ctx, steps):
         flab.sort(key=str)
     A = pd.DataFrame({"t": np.arange(m, dtype=np.float64) + 100.0, "u": np.arange(m, dtype=np.int64) + 200}, index=pd.Index(flab))
     ser_arg = pd.Series(np.arange(n, dtype=np.float64) * 3.0, index=O.index, name="argname")
-    fam = {"O": O, "C": O.copy(), "S": O.iloc[1:], "K": O[["n", "x", "other"]], "E": O["n"], "A": A, "ser_arg": ser_arg}
+    fam = {"O": O, "C": O.copy(), "S": O.iloc[1:], "K": O[["n", "x", "other"]], "E": O["n"], "A": A, "ser_arg": ser_arg,
+           # plain argument objects a caller keeps: positions (with negatives), a list of sort directions, a list of columns
+           "P": np.array([-1, 0], dtype=np.int64), "ASC": [False, True], "BY": ["n.a", "n.b"], "SUBSET": ["n.a"]}
     fam["R"] = O.add_nested(A, "m")
     hist = [{"start": s.desc(), "labels": labels, "flat_labels": flab}]
 
@@ -73,7 +75,8 @@ def run_family(ctx, steps):
                 op = rng.choice(["query", "eval", "eval_assign", "sort", "dropna", "add_nested", "reduce", "with_flat", "without",
                                  "to_parquet", "to_flat", "from_flat", "pack", "setitem_series_new_nest", "nest_lists", "take",
                                  "take_all", "mask_all", "loc_all", "iloc_all", "query_base_all", "concat_with_empty",
-                                 "concat_empty_first", "reindex_same", "series_take_all", "series_concat_empty"])
+                                 "concat_empty_first", "reindex_same", "series_take_all", "series_concat_empty",
+                                 "sort_with_arg_lists", "dropna_with_arg_list", "take_with_arg_positions"])
                 desc.update(target=tname, op=op)
                 new = None
                 if op == "query":
@@ -109,6 +112,13 @@ def run_family(ctx, steps):
                     new = Y
                 elif op == "nest_lists":
                     new = X["n"].nest.to_lists()
+                elif op == "sort_with_arg_lists":
+                    new = X.sort_values(fam["BY"], ascending=fam["ASC"])
+                elif op == "dropna_with_arg_list":
+                    new = X.dropna(subset=fam["SUBSET"])
+                elif op == "take_with_arg_positions":
+                    new = X["n"].array.take(fam["P"], allow_fill=False) if len(X) else None
+                    new = None if new is None else pd.Series(new)
                 elif op == "take_all":          # selections that keep every row, in order: still NEW objects
                     new = X.take(list(range(len(X))))
                 elif op == "mask_all":
@@ -156,7 +166,7 @@ def run_family(ctx, steps):
                 arr = X[col].array if isinstance(X, pd.DataFrame) else X.array
                 sharers = {k for k, v in fam.items() if any(a is arr for a in arrays_of(v))}
                 may_change = sharers
-                op = rng.choice(["setitem_row", "nest_setitem", "setitem_none"])
+                op = rng.choice(["setitem_row", "nest_setitem", "setitem_none", "setitem_arg_positions"])
                 desc.update(target=tname, op=op, sharers=sorted(sharers))
                 if len(arr) == 0:
                     continue
@@ -165,6 +175,10 @@ def run_family(ctx, steps):
                     arr[rng.randrange(len(arr))] = df_of_row(gen.rand_row(rng, cty, p_missing=0), cty)
                 elif op == "setitem_none":
                     arr[rng.randrange(len(arr))] = None
+                elif op == "setitem_arg_positions":
+                    # the positions array is the CALLER's: it must come back as it was
+                    if len(arr) >= 2:
+                        arr[fam["P"]] = [df_of_row(gen.rand_row(rng, cty, p_missing=0), cty) for _ in range(2)]
                 else:
                     ser = X[col] if isinstance(X, pd.DataFrame) else X
                     fld = "a" if col == "n" else "p"
